@@ -301,6 +301,10 @@ def run(ctx):
     ctx.rule("R13.13", "legacy @task_unique(kill_me=True): the claim made inside the new run applies the kill_me rule itself (two triggers firing at the same instant both pass "
              "the earlier pre-check; the second run must then be the one that ends, before its body starts - not the first)", floor=2)
     legacy_claim_rule(ctx, program, "R13.13")
+    ctx.rule("R13.14", "new subsystem: @task_unique is applied to every accepted occurrence, also one accepted just before (or during: the shutdown occurrence) the stop of "
+             "its function: the run's task starts only after stop() has emptied the manager's decorator list, so the call handlers are the ones handed over at dispatch time, "
+             "not looked up when the task finally runs", floor=1)
+    call_handlers_rule(ctx, program, "R13.14")
     ctx.rule("R13.12", "unique names of different global contexts never meet: context names nest ('scripts.a' / 'scripts.a.b') and a name may contain dots, so the qualified key "
              "must still tell ('scripts.a', 'b.lock') from ('scripts.a.b', 'lock') - in the in-use test, in the claim and in task.name2id()", floor=3)
     context_isolation_rule(ctx, program, "R13.12")
@@ -446,3 +450,69 @@ def unique_table(ctx, program, rid):
                         ctx.check(bool(paths) and bad is None, rid, TU, f"task.unique: {label}", msg=f"task.unique('n') with {label}: {bad or 'no exit'}",
                                   key=f"table {label}", node=fn, rel="function.py")
     return n_cases
+
+
+def call_handlers_rule(ctx, program, rid):
+    """FunctionDecoratorManager._call interpreted after the manager has been stopped (decorator list emptied) for an occurrence that was dispatched before: the
+    @task_unique handler that was in force at dispatch must still be asked."""
+    from ..absint import Out
+    D = "decorator.py::FunctionDecoratorManager.dispatch"
+    C = "decorator.py::FunctionDecoratorManager._call"
+    tu = ObjV("tu", "TaskUniqueDecorator")
+    coro = []
+
+    def call_(i, n, a, k, c, o):
+        coro.append((tuple(a), dict(k)))
+        return [(c, Sym(("coro", "_call")))]
+
+    def get_decorators(i, n, a, k, c, o):
+        lst = c.heap.get("self._decorators")
+        want = a[0] if a else None
+        items = tuple(x for x in lst.items if want is None or (isinstance(want, ClassV) and want.name == "CallHandlerDecorator" and x == tu))
+        return [(c, ListV(items, "list"))]
+
+    glob = {"CallHandlerDecorator": ClassV("CallHandlerDecorator"), "CallResultHandlerDecorator": ClassV("CallResultHandlerDecorator"), "TriggerHandlerDecorator": ClassV("TriggerHandlerDecorator")}
+    pol = FlowPolicy(program, may_raise_all=False, cancel=False, globals_=glob,
+                     summaries={"self._call": call_, "self.get_decorators": get_decorators, "AstEval": lambda i, n, a, k, c, o: [(c, ObjV("run_eval", "AstEval"))],
+                                "Function.install_ast_funcs": lambda i, n, a, k, c, o: [(c, NONE)], "Context": lambda i, n, a, k, c, o: [(c, ObjV("hctx", "Context"))],
+                                "Function.create_task": lambda i, n, a, k, c, o: [(c, ObjV("task", "Task"))], "Function.task_done_callback_ctx": lambda i, n, a, k, c, o: [(c, NONE)],
+                                "self._dispatch_lock.__aenter__": lambda i, n, a, k, c, o: [(c, NONE)], "self._dispatch_lock.__aexit__": lambda i, n, a, k, c, o: [(c, NONE)]})
+    data = ObjV("data", "DispatchData")
+    heap = {"self._decorators": ListV((tu,), "list"), "self.eval_func": ObjV("fn", "EvalFunc"), "fn.global_ctx_name": Const("file.x"), "fn.name": Const("f"), "fn.global_ctx": ObjV("g", "GlobalContext"),
+            "self.name": Const("file.x.f"), "data.func_args": DictV([(Const("trigger_type"), Const("time"))]), "data.trigger": ObjV("tt", "TimeTriggerDecorator"), "self._dispatch_lock": ObjV("lock", "Lock")}
+    out = run_flow(program, D, pol, args={"self": ObjV("self", "FunctionDecoratorManager"), "data": data}, heap=heap)
+    ex = [(k, c, d) for k, c, d in exits(out)]
+    bad = None
+    asked = []
+    if len(ex) != 1 or ex[0][0] != "return" or len(coro) != 1:
+        bad = f"dispatch: exits {[d for k, c, d in ex]}, {len(coro)} run(s) created"
+    else:
+        # the manager is stopped before the run's task gets to execute
+        h2 = dict(ex[0][1].heap)
+        h2["self._decorators"] = ListV((), "list")
+        h2["self.hass"] = ObjV("hass", "HomeAssistant")
+
+        def handle_call(i, n, a, k, c, o):
+            asked.append(n)
+            return [(c, Const(True))]
+
+        pol2 = FlowPolicy(program, may_raise_all=False, cancel=False, globals_=glob,
+                          summaries={"self.get_decorators": get_decorators, "handler_dec.handle_call": handle_call, "self.hass.bus.async_fire": lambda i, n, a, k, c, o: [(c, NONE)],
+                                     "Function.store_hass_context": lambda i, n, a, k, c, o: [(c, NONE)], "data.call_ast_ctx.call_func": lambda i, n, a, k, c, o: [(c, Sym(("result",)))]})
+        pol2.loop_unroll = 3
+        fn = program.func(C)
+        params = [a.arg for a in fn.args.posonlyargs + fn.args.args][1:]
+        a, kw = coro[0]
+        args2 = {"self": ObjV("self", "FunctionDecoratorManager")}
+        for nm, v in zip(params, a):
+            args2[nm] = v
+        args2.update(kw)
+        out2 = run_flow(program, C, pol2, args=args2, heap=h2)
+        ex2 = exits(out2)
+        if not ex2 or any(k != "return" for k, c, d in ex2):
+            bad = f"_call: exits {[d for k, c, d in ex2]}"
+        elif not asked:
+            bad = ("the run starts after stop() emptied the decorator list and _call looks the call handlers up only then: @task_unique is not applied "
+                   "(the name is not claimed, a previous owner is not cancelled, kill_me does not end the run)")
+    ctx.check(bad is None, rid, C, "the occurrence's call handlers survive the stop of its function", msg=f"FunctionDecoratorManager: occurrence dispatched, manager stopped, then the run's task executes: {bad}",
+              key="call handlers bound at dispatch", node=program.func(C), rel="decorator.py")
